@@ -89,7 +89,9 @@ def run(ctx):
                 'blanks between tokens); flat texts with two unbracketed slashes at top level and inside brackets; '
                 'a malformed stream. non-trivial = distinct texts of functor categories that were accepted, plus '
                 'distinct flat texts')
-    en_atoms = gen_cat.en_atoms() + [Atom('.'), Atom('LRB'), Atom('Σ', UnaryFeature('φ')), Atom('N', UnaryFeature('num'))]
+    en_atoms = gen_cat.en_atoms() + [Atom('.'), Atom('LRB'), Atom('Σ', UnaryFeature('φ')), Atom('N', UnaryFeature('num')),
+                                      # features spelled like the punctuation categories (CCGbank's X[conj])
+                                      Atom('NP', UnaryFeature('conj')), Atom('S', UnaryFeature('LRB')), Atom('N', UnaryFeature('RRB'))]
     ja_atoms = gen_cat.ja_atoms(small=True)
     uni = gen_cat.universe(en_atoms, 2) + gen_cat.universe(ja_atoms, 2)
     uni3 = gen_cat.universe(gen_cat.en_atoms(bases=['S', 'NP', ','], feats=[None, 'X', 'dcl']), 3) \
